@@ -92,7 +92,7 @@ func vfJPathYAML(p []vfJStep) (string, bool) {
 			continue
 		}
 		k := vfJKeyText(st.Key)
-		if k == "" || strings.ContainsAny(k, " .[]'\"-#:") {
+		if k == "" || strings.ContainsAny(k, " .[]'\"-#:$") {
 			return "", false
 		}
 		s += "." + k
@@ -157,6 +157,8 @@ func c16Docs(thorough bool) []*vfJ {
 		vfJO(`"f"`, s(`1.0`), `"e"`, s(`1e3`), `"s"`, s(`"---"`), `"h"`, s(`"[TestA - 2]"`)),
 		// sibling keys that are textual prefixes of each other, in both orders (paths are compared segment-wise, not as strings)
 		vfJO(`"created"`, s(`"2024-01-01"`), `"createdBy"`, s(`"u1"`), `"k10"`, s(`10`), `"k1"`, s(`1`), `"o"`, vfJO(`"id"`, s(`3`), `"id_token"`, s(`"tok"`))),
+		// keys that start with `$` (JSON-schema / extended-JSON style) next to the same key without it; numbers in non-canonical spelling
+		vfJO(`"$id"`, s(`"u1"`), `"id"`, s(`"u2"`), `"$ref"`, vfJO(`"$oid"`, s(`"abc"`), `"oid"`, s(`1.50`)), `"n"`, s(`3.0`)),
 	}
 	if thorough {
 		docs = append(docs,
@@ -239,11 +241,12 @@ func c16SameTypeAlts(v *vfJ) []*vfJ {
 	case v.Scalar == "null":
 		return nil
 	}
-	return []*vfJ{vfJS(`42`), vfJS(`0.5`), vfJS(`-7`)}
+	return []*vfJ{vfJS(`42`), vfJS(`0.5`), vfJS(`-7`), vfJS(`42.0`), vfJS(`4.2e1`)}
 }
 
 func c16AnyAlts(v *vfJ) []*vfJ {
-	return append(c16SameTypeAlts(v), vfJS(`"str"`), vfJS(`7`), vfJS(`null`), vfJO(`"k"`, vfJS(`1`)), vfJA(vfJS(`1`), vfJS(`2`)), vfJS(`true`))
+	// incl. values that EQUAL what the matchers put there, spelled with JSON escapes (a matcher that skips "unchanged" values keeps the spelling)
+	return append(append(c16SameTypeAlts(v), vfJS(`"\u003ccustom\u003e"`), vfJS(`"\u003cAny value\u003e"`), vfJS(`"<custom>"`)), vfJS(`"str"`), vfJS(`7`), vfJS(`null`), vfJO(`"k"`, vfJS(`1`)), vfJA(vfJS(`1`), vfJS(`2`)), vfJS(`true`))
 }
 
 func c16Run(c *vfCtx, cs c16Case) {
